@@ -6,10 +6,12 @@ W="$1"; O="$W/_out"
 cd "$W" || exit 2
 git checkout -q -- . ; rm -f tests/seed_demo.rs
 [ -f "$O/patch.diff" ] || { echo "no patch.diff"; exit 2; }
-DEMO=$(ls "$O"/*.rs 2>/dev/null | head -1)
+DEMO=$(ls "$O"/seed_demo.rs 2>/dev/null | head -1)
+FEAT=""
+if [ -n "$DEMO" ]; then F=$(head -1 "$DEMO" | sed -n 's|^// features: *\([A-Za-z0-9_,]*\).*|\1|p'); [ -n "$F" ] && FEAT="--no-default-features --features $F"; fi
 run_demo() {
-  if [ -n "$DEMO" ]; then cp "$DEMO" tests/seed_demo.rs; timeout 600 cargo test --offline --test seed_demo >"$O/.demo.log" 2>&1; rc=$?; rm -f tests/seed_demo.rs; return $rc
-  elif [ -f "$O/demo.diff" ]; then git apply "$O/demo.diff" || return 99; timeout 600 cargo test --offline --lib seed_demo >"$O/.demo.log" 2>&1; rc=$?; git apply -R "$O/demo.diff"; return $rc
+  if [ -f "$O/demo.diff" ]; then git apply "$O/demo.diff" || return 99; timeout 600 cargo test --offline --lib seed_demo >"$O/.demo.log" 2>&1; rc=$?; git apply -R "$O/demo.diff"; return $rc
+  elif [ -n "$DEMO" ]; then cp "$DEMO" tests/seed_demo.rs; timeout 900 cargo test --offline $FEAT --test seed_demo >"$O/.demo.log" 2>&1; rc=$?; rm -f tests/seed_demo.rs; return $rc
   else echo "no demo"; return 98; fi
 }
 run_demo; R_CLEAN=$?
